@@ -198,10 +198,14 @@ def run(ctx):
     jobs += [("hist_trace", dict(chain=c, device=["barhole", "ellipse"][n % 2])) for n, c in enumerate(histories)]
     # separate interpreters: a crash of the mesh generator is an observation; few, large batches (start-up dominates)
     res = mg.run_batches(ctx, jobs, batch=max(6, min(120, len(jobs) // 12 + 1)))
-    exact, gen, refused, invalid, crashed, hist = [], [], [], [], [], []
+    exact, gen, refused, invalid, crashed, hist, histfail = [], [], [], [], [], [], []
     for x in res:
         for t in (x if isinstance(x, list) else [x]):
-            {"exact": exact, "gen": gen, "refused": refused, "invalid": invalid, "crashed": crashed, "hist": hist}[t["kind"]].append(t)
+            {"exact": exact, "gen": gen, "refused": refused, "invalid": invalid, "crashed": crashed, "hist": hist, "histfail": histfail}[t["kind"]].append(t)
+    for t in histfail[:3]:
+        ctx.violation(f"C07:history:device-cannot-be-built:{t['key'].split(':')[0]}:{t['exc']}",
+                      f"C07 (history): the plain device '{t['key'].split(':')[0]}' of the histories (boxes / circle / ellipse from the documented primitives) "
+                      f"cannot be built or meshed: {t['exc']}: {t['msg']}", {"trace": t})
     ctx.cov["meshes_generated"] = len(gen)
     ctx.cov["descriptions_skipped_as_ill_formed"] = len(invalid)
     ctx.cov["mesh_generator_crashes"] = [t["key"] for t in crashed][:5]
